@@ -87,4 +87,17 @@ PROPS = {
               '(tree, options); compile builds its manager from Default; no verified function reads global state.',
         not_decided=['parse determinism (combinators)', 'the clock window of time tests (compile_time_comp is external: SystemTime)'],
     ),
+    'C08': dict(
+        level='proof',
+        kani=['permission', 'target_scheme'],
+        scope='clause algebra: for every operator, non-empty who-set, non-empty perm-set and 9-bit mode the real clause constructor '
+              '(lifted from PartialPermission::parse) followed by the real PartialPermission::update equals chmod\'s rule '
+              '(Kani, full domain, loop-free: complete); letter table; fold seed/step; octal bits <-> Mode for every u32; '
+              'the 07777 mask; and (Verus, text layer) compile_perm_check emits the all-bits-equal / all-given-bits-set / '
+              'any-given-bit-set comparison for Equal / AtLeast / Any over exactly the bits of the mode.',
+        not_decided=['prefix dispatch (none, -, /) and the [ugoa]+[+-=][rwx]+ tokenisation (winnow combinators)',
+                     'u32::from_str_radix(_, 8) (std)', 'std Iterator::fold applies the step to the clauses in order'],
+        trusted=['Kani 0.68 / CBMC 6.11; bitflags 2.x is executed, not modelled',
+                 'winnow hands each lifted closure only what its combinator admits (domain anchors checked present)'],
+    ),
 }
